@@ -125,9 +125,9 @@ theorem effective_eq_merge_of_files :
 theorem bank_list_is_concatenation_count :
     (Gen.bankFiles.map (·.2)).sum = Gen.bankCount := by decide +kernel
 
-/-- Exactly the files whose stem ends in `v2` are expanded. -/
-theorem v2_files : (Gen.bankFiles.filter (fun f => isV2 f.1)).map (·.1) =
-    [[109, 97, 110, 117, 97, 108, 95, 100, 107, 46, 118, 50, 46, 106, 115, 111, 110]] := by
+/-- The files the code expands (it goes by the file name: stem ending in `v2`) are exactly the files
+    whose document has the compact v2 shape. -/
+theorem v2_files : Gen.bankFileShapes.all (fun f => isV2 f.1 == f.2) = true := by
   decide +kernel
 
 /-! ### "Validation, generation and lookup follow the effective data"
